@@ -606,7 +606,10 @@ def gen_path(rng: Any, data: dict, kind: str, for_set: bool) -> str:
     cur: Any = data
     for _ in range(n):
         seg = None
-        if cur is not MISSING and rng.random() < 0.7:
+        if cur is not MISSING and isinstance(cur, dict) and cur and rng.random() < 0.12:
+            # position-like segment on a dict: must be a (probably missing) key, never an index
+            seg = str(rng.randrange(-1, len(cur) + 1))
+        elif cur is not MISSING and rng.random() < 0.7:
             if isinstance(cur, dict) and cur:
                 seg = rng.choice(list(cur.keys()))
             elif isinstance(cur, (list, str)) and len(cur) > 0:
